@@ -18,6 +18,10 @@ import (
 	"sync"
 	"sync/atomic"
 
+	"k8s.io/apimachinery/pkg/api/meta"
+	"k8s.io/client-go/discovery"
+	"k8s.io/client-go/dynamic"
+	"k8s.io/client-go/rest"
 	"sigs.k8s.io/yaml"
 
 	"helm.sh/helm/v4/pkg/action"
@@ -142,8 +146,29 @@ func c05Load(files []c05File) (*chart.Chart, error) {
 	return loader.LoadFiles(bf)
 }
 
+// a cluster connection that leads nowhere: enough to make the engine "client aware"
+type c05Getter struct{}
+
+func (c05Getter) ToRESTConfig() (*rest.Config, error) { return &rest.Config{Host: "http://127.0.0.1:1"}, nil }
+func (c05Getter) ToDiscoveryClient() (discovery.CachedDiscoveryInterface, error) {
+	return nil, fmt.Errorf("c05: no discovery")
+}
+func (c05Getter) ToRESTMapper() (meta.RESTMapper, error) { return nil, fmt.Errorf("c05: no mapper") }
+
+type c05Provider struct{}
+
+func (c05Provider) GetClientFor(_, _ string) (dynamic.NamespaceableResourceInterface, bool, error) {
+	return nil, false, fmt.Errorf("c05: no cluster")
+}
+
 // c05Install runs the real action.Install (dry-run, client-only) on a freshly loaded chart.
 func c05Install(ch *chart.Chart, c c05Case, dns bool) (res c05Render) {
+	return c05InstallMode(ch, c, dns, false)
+}
+
+// server=false: DryRun + ClientOnly (helm template); server=true: --dry-run=server against a
+// reachable fake cluster, which makes renderResources build the engine with engine.New(restConfig)
+func c05InstallMode(ch *chart.Chart, c c05Case, dns, server bool) (res c05Render) {
 	defer func() {
 		if p := recover(); p != nil {
 			res = c05Render{Err: fmt.Sprintf("panic: %v", p)}
@@ -152,7 +177,12 @@ func c05Install(ch *chart.Chart, c c05Case, dns bool) (res c05Render) {
 	cfg := &action.Configuration{Releases: storage.Init(driver.NewMemory()), KubeClient: &kubefake.PrintingKubeClient{Out: io.Discard},
 		Capabilities: chartutil.DefaultCapabilities}
 	inst := action.NewInstall(cfg)
-	inst.DryRun, inst.ClientOnly = true, true
+	if server {
+		cfg.RESTClientGetter = c05Getter{}
+		inst.DryRunOption = "server"
+	} else {
+		inst.DryRun, inst.ClientOnly = true, true
+	}
 	inst.ReleaseName, inst.Namespace = "rel", "ns"
 	inst.SubNotes, inst.IncludeCRDs, inst.HideSecret, inst.EnableDNS, inst.SkipSchemaValidation = c.SubNotes, c.IncludeCRDs, c.HideSecret, dns, c.SkipSchema
 	rel, err := inst.Run(ch, c05CopyVals(c.Values))
@@ -387,7 +417,31 @@ func (*c05) Execute(ci any) (res any) {
 			obs.Regimes["dns-switch"] = "same"
 		}
 	}
+	// (v) with a cluster connection (server-side dry run): same outputs, and the DNS stub still in place
+	usesLookup := false
+	for _, f := range files {
+		if strings.Contains(f.Data, "lookup") {
+			usesLookup = true
+		}
+	}
+	if !usesLookup {
+		for i := 0; i < 2; i++ {
+			if ch, err := c05Load(files); err == nil {
+				r := c05InstallMode(ch, c, c.EnableDNS, true)
+				all = append(all, r)
+				cmp("server-dry-run", r)
+			}
+		}
+	} else {
+		obs.Regimes["server-dry-run"] = "same"
+	}
 	obs.HTTPHits = int(atomic.LoadInt64(&h.hits) - hits0)
+
+	// stage replay on the real functions: classification, the inputs of the model, and the
+	// engine's other entry points
+	for _, t := range c05Stages(files, c, &obs, !usesLookup) {
+		all = append(all, c05Render{Manifest: t})
+	}
 
 	// canary tokens and markers over every output produced
 	leak := map[string]bool{}
@@ -424,8 +478,6 @@ func (*c05) Execute(ci any) (res any) {
 	sort.Strings(obs.Leaks)
 	sort.Strings(obs.Markers)
 
-	// stage replay on the real functions: classification and the inputs of the model
-	c05Stages(files, c, &obs)
 	return obs
 }
 
@@ -444,7 +496,7 @@ func c05Around(t, tok string) string {
 // c05Stages calls the real stage functions one by one (what Install does internally) to
 // classify the outcome and to collect what the Coq model is given: the template keys, the
 // engine's rendered map, the splitter's and the YAML head decoder's results.
-func c05Stages(files []c05File, c c05Case, obs *c05Obs) {
+func c05Stages(files []c05File, c c05Case, obs *c05Obs, withClient bool) (texts []string) {
 	ch, err := c05Load(files)
 	if err != nil {
 		obs.Class = "load"
@@ -500,6 +552,62 @@ func c05Stages(files []c05File, c c05Case, obs *c05Obs) {
 			break
 		}
 		obs.Regimes["engine-direct"] = "same"
+	}
+	// the engine's other entry points: with a client provider the output (for charts that do not
+	// call lookup) and in particular the DNS stub must be the same
+	if withClient {
+		entries := map[string]func(*chart.Chart, chartutil.Values) (map[string]string, error){
+			"engine.New": func(x *chart.Chart, v chartutil.Values) (map[string]string, error) {
+				e := engine.New(&rest.Config{Host: "http://127.0.0.1:1"})
+				e.EnableDNS = c.EnableDNS
+				return e.Render(x, v)
+			},
+		}
+		if !c.EnableDNS {
+			entries["engine.RenderWithClient"] = func(x *chart.Chart, v chartutil.Values) (map[string]string, error) {
+				return engine.RenderWithClient(x, v, &rest.Config{Host: "http://127.0.0.1:1"})
+			}
+			entries["engine.RenderWithClientProvider"] = func(x *chart.Chart, v chartutil.Values) (map[string]string, error) {
+				return engine.RenderWithClientProvider(x, v, c05Provider{})
+			}
+			entries["engine.Render(func)"] = engine.Render
+		}
+		obs.Regimes["engine-entry-points"] = "same"
+		enames := make([]string, 0, len(entries))
+		for n := range entries {
+			enames = append(enames, n)
+		}
+		sort.Strings(enames)
+		for _, n := range enames {
+			ch2, _ := c05Load(files)
+			vals2 := c05CopyVals(c.Values)
+			chartutil.ProcessDependencies(ch2, vals2)
+			rv2, err := chartutil.ToRenderValuesWithSchemaValidation(ch2, vals2, opts, caps, c.SkipSchema)
+			if err != nil {
+				continue
+			}
+			r2, err := entries[n](ch2, rv2)
+			if err != nil {
+				obs.Regimes["engine-entry-points"] = "differs: " + n + " fails: " + c05Short(err.Error())
+				continue
+			}
+			ks := make([]string, 0, len(r2))
+			for k := range r2 {
+				ks = append(ks, k)
+			}
+			sort.Strings(ks)
+			for _, k := range ks {
+				texts = append(texts, r2[k])
+			}
+			if !reflect.DeepEqual(rendered, r2) {
+				for _, k := range ks {
+					if rendered[k] != r2[k] {
+						obs.Regimes["engine-entry-points"] = "differs: " + n + " renders " + k + " " + c05FirstDiff(rendered[k], r2[k])
+						break
+					}
+				}
+			}
+		}
 	}
 	names := make([]string, 0, len(rendered))
 	for k := range rendered {
@@ -567,6 +675,7 @@ func c05Stages(files []c05File, c c05Case, obs *c05Obs) {
 		return
 	}
 	obs.Class = "ok"
+	return
 }
 
 // c05ExecFiles drives the real .Files object.
